@@ -174,7 +174,12 @@ func execGetter(o *out, f [][]int) []int {
 		return []int{1}
 	}
 	before := fmt.Sprint(serMsg(m))
+	spareBefore := append([]byte(nil), buf[len(data):]...)
 	res, _ := getterResult(g, t, key, m)
+	if g != 6 && !bytes.Equal(spareBefore, buf[len(data):]) {
+		// (MESSAGE-INTEGRITY's check is known to use the spare capacity behind Raw - see the C20 finding; nothing else may)
+		o.fail("writes-behind-the-message", "701 "+fHex(data)+" "+fHex(extra)+" "+fNums(g, t)+" "+fHex(key))
+	}
 	obs := append([]int{0}, res...)
 	if res[0] == 2 {
 		o.failFor("C07", "getter-panic", "701 "+fHex(data)+" "+fHex(extra)+" "+fNums(g, t)+" "+fHex(key))
